@@ -52,12 +52,38 @@ def snapshot(grid, pool, h0, lvl):
         alias.append(ids.setdefault(id(a), len(ids) + 1))
     return {
         "axes": [pool.seq(a) for a in grid.axes],
+        "nbrs": neighbours(grid, pool),
         "origin": [int(x) for x in ov],
         "zero": pool.add(0.0), "hm": pool.add(-h), "hp": pool.add(h),
         "trunc": [[pool.add(t[0]), pool.add(t[1])] for t in grid.truncations],
         "hq": exact_int(h * 2 ** lvl / h0, tol=1e-12),
         "alias": alias, "dim": d,
     }
+
+
+def neighbours(grid, pool):
+    """what the grid's own helpers say about every state of every axis: [left_point, right_point, outside] (the diagonal
+    coordinate (k, .., k) is used on grids of several dimensions; -1 / n must be outside, 0 .. n-1 inside)"""
+    from rpylib.grid.grid import CoordinateND
+    d = len(grid.axes)
+    n = min(len(a) for a in grid.axes)
+    out = {"left": [[] for _ in range(d)], "right": [[] for _ in range(d)], "inside": [], "beyond": []}
+    for k in range(n):
+        c = k if d == 1 else CoordinateND([k] * d)
+        lp, rp = grid.left_point(c), grid.right_point(c)
+        lp = [lp] if d == 1 else list(lp)
+        rp = [rp] if d == 1 else list(rp)
+        for j in range(d):
+            out["left"][j].append(pool.add(float(lp[j])))
+            out["right"][j].append(pool.add(float(rp[j])))
+        out["inside"].append(0 if bool(grid.outside(c)) else 1)
+    for k in (-1, max(len(a) for a in grid.axes)):
+        c = k if d == 1 else CoordinateND([k] * d)
+        try:
+            out["beyond"].append(1 if bool(grid.outside(c)) else 0)
+        except Exception:
+            out["beyond"].append(1)
+    return out
 
 
 def mids_of(grid, pool):
